@@ -59,6 +59,19 @@ def scope_functions(project, cg: CallGraph):
     return refs
 
 
+def _guarded_not_none(stmt, name):
+    """is the statement control dependent (in the true branch) on a test that establishes `name` is an error object?"""
+    from .rules.c07 import error_test
+    child, p = stmt, getattr(stmt, "_parent", None)
+    while p is not None and not isinstance(p, (ast.FunctionDef, ast.AsyncFunctionDef)):
+        if isinstance(p, ast.If) and any(child is x for x in p.body):
+            conj = p.test.values if isinstance(p.test, ast.BoolOp) and isinstance(p.test.op, ast.And) else [p.test]
+            if any(error_test(c, name) is True for c in conj):
+                return True
+        child, p = p, getattr(p, "_parent", None)
+    return False
+
+
 def raised_class(fn_cfg, rd, node_ast):
     exc = node_ast.exc
     if exc is None:
@@ -77,6 +90,8 @@ def raised_class(fn_cfg, rd, node_ast):
                 classes.add(norm(t) if t is not None else "Exception")
             elif r[0] == "expr" and isinstance(r[1], ast.Call):
                 classes.add(call_name(r[1]) or "Exception")
+            elif r[0] == "expr" and isinstance(r[1], ast.Constant) and r[1].value is None and _guarded_not_none(node_ast, exc.id):
+                continue  # `e = None` cannot reach a raise that is guarded by `e is not None` / `e`
             else:
                 classes.add("Exception")
         if len(classes) == 1:
